@@ -462,7 +462,34 @@ func runHistory(p *SPlan, noUp bool, o *sim.Outcome, sigParts *[]string) []obsLi
 			}
 		case "addhard":
 			res = s.call(func() error { return s.shim.AddHardCert(c.pub(st.Role), st.Arg) })
-			want = m.AddHard(c.ident(st.Role, 0, now), now)
+			hid := c.ident(st.Role, 0, now)
+			open := m.ViaCertOnly(hid, now)
+			want = m.AddHard(hid, now)
+			if open && res.err == nil && res.panicked == nil && !res.faulted {
+				// The underlying agent lists only a certificate over this key, not the key: whether the shim accepts is
+				// not settled by the property - but it accepted, and for an accepted certificate "signing with it yields
+				// a signature that verifies under the certificate's key" is. Ask for one right away.
+				o.Probe("accepted_over_key_listed_in_certificate_only")
+				probe := []byte("probe after an accepted add of " + st.Role)
+				var psig *ssh.Signature
+				r2 := s.call(func() error {
+					var e error
+					psig, e = s.shim.SignWithFlags(c.pub(st.Role), append([]byte(nil), probe...), 0)
+					return e
+				})
+				m.Sign(st.Role, true, hid.YSSHCA, now) // the model follows (a sign request purges)
+				if r2.panicked != nil {
+					res.panicked, res.stack = r2.panicked, r2.stack
+				}
+				if !r2.faulted && !s.closed && !m.UpLocked && shimmodel.Validity(hid.VA, hid.VB, now) == shimmodel.Valid {
+					if r2.err != nil {
+						o.Fail("C10.effect", "accepted_cannot_sign", i, "%s: the certificate was accepted as a hardware certificate, but signing with it fails: %v", tag, r2.err)
+					} else if e := verifySig(c.pub(st.Role), probe, psig); e != nil {
+						o.Fail("C10.effect", "accepted_cannot_sign", i, "%s: the certificate was accepted as a hardware certificate, but the signature made with it does not verify: %v", tag, e)
+					}
+				}
+				res.faulted = res.faulted || r2.faulted
+			}
 		case "remove":
 			var rarg ssh.PublicKey = c.pub(st.Role)
 			if st.Arg == "agentkey" {
@@ -511,7 +538,7 @@ func runHistory(p *SPlan, noUp bool, o *sim.Outcome, sigParts *[]string) []obsLi
 			res.bytes = out
 			want = shimmodel.OK
 			if res.err == nil && res.panicked == nil && !res.faulted {
-				if !bytes.Equal(out, append([]byte{0xEE}, req...)) {
+				if !bytes.Equal(out, refagent.EchoReply(req)) {
 					o.Fail("C10.forward", "forward_bytes", i, "%s: raw request of %d bytes (%x...) relayed/answered as %d bytes (%x...) (the upstream echoes EE||request)", tag, len(req), req[:min(len(req), 24)], len(out), out[:min(len(out), 24)])
 				} else {
 					o.Probe("forward_relayed")
@@ -932,7 +959,9 @@ func execS(t *testing.T, raw json.RawMessage) *sim.Outcome {
 	})
 	if fail != "" {
 		failBubble(o, fail)
-		return o
+		if !sim.LeftoverOnly(fail) {
+			return o
+		}
 	}
 	if p.Dual && len(p.Faults) == 0 {
 		o2 := &sim.Outcome{}
@@ -942,7 +971,9 @@ func execS(t *testing.T, raw json.RawMessage) *sim.Outcome {
 		})
 		if fail != "" {
 			failBubble(o, fail)
-			return o
+			if !sim.LeftoverOnly(fail) {
+				return o
+			}
 		}
 		o.All = append(o.All, o2.All...)
 		for k, v := range o2.Probes {
@@ -1005,6 +1036,11 @@ func subtractHidden(full, noup []string, hidden map[string]int) []string {
 // failBubble classifies the failure of a bubble: a deadlock (every goroutine of the simulated world blocked
 // for ever) means an operation of the code under test never completed.
 func failBubble(o *sim.Outcome, fail string) {
+	if sim.LeftoverOnly(fail) {
+		// (callers go on with their oracles: see sim.LeftoverOnly)
+		o.Probe("goroutines_left_after_the_last_operation")
+		return
+	}
 	if strings.Contains(fail, "deadlock") {
 		o.Fail("any.stalled", "stalled", 0, "the simulated world came to a standstill: an operation never completed (%s)", fail)
 		return
